@@ -626,7 +626,7 @@ func genStamp(repo string) string {
 			fatalf(st.Pos(), "compile: unexpected statement after the position-stamping loop: %s", t)
 		}
 	}
-	return "(* the loop at the end of (*compiler).compile, /repo/compiler.go: p is newPos(tok) *)\n" +
+	return "(* the loop at the end of compiler.compile, /repo/compiler.go: p is newPos(tok) *)\n" +
 		"Definition stamp_gen (p : Z) (res : list instr) : list instr :=\n" +
 		"  map (fun i => if ipos i =? 0 then mkI (icode i) (iA i) (iB i) (iC i) p else i) res.\n"
 }
